@@ -27,6 +27,9 @@ TranslateError and the check falls back to coq/gen_default/SyncDist_gen.v + the 
       return task(*args, **kwargs).result
   -> gen_direct_returns_result, gen_direct_par_aggregates
 * pynenc/conf/config_task.py  ConfigTask.max_retries = ConfigField(<n>)  -> gen_default_max_retries
+* pynenc/task.py  distribute_calls, the dev_mode_force_sync_tasks branch (see parse_sync_group)
+      for a in all_args: v = task._call(a); <type guard>; L.append(v)   return ConcurrentInvocationGroup(task, L)
+  -> gen_sync_group_own_invocations (every element of a parallelized list is its own fresh invocation)
 """
 from __future__ import annotations
 
@@ -415,6 +418,8 @@ def emit(p: dict) -> str:
         f"Definition gen_direct_returns_result : bool := {_b(p['direct']['returns_result'])}.",
         f"Definition gen_direct_par_aggregates : bool := {_b(p['direct']['aggregates'])}.",
         f"Definition gen_default_max_retries : nat := {p['default_max']}.",
+        f"(* task.py distribute_calls, dev_mode_force_sync_tasks branch: {p['group']['why']} *)",
+        f"Definition gen_sync_group_own_invocations : bool := {_b(p['group']['own_invocations'])}.",
         "",
     ])
 
@@ -427,13 +432,16 @@ def translate(repo: str) -> tuple[str, dict]:
         "dist": parse_dist(rd("pynenc/invocation/dist_invocation.py")),
         "retry": parse_set_retry(rd("pynenc/orchestrator/base_orchestrator.py")),
         "retriable": parse_retriable(rd("pynenc/task.py")),
+        "group": parse_sync_group(rd("pynenc/task.py")),
         "direct": parse_direct(rd("pynenc/app.py")),
         "default_max": parse_default_max(rd("pynenc/conf/config_task.py")),
     }
     info = {"facts": {"sync_exhausted": p["sync"]["exhausted"], "sync_incr": p["sync"]["incr"],
                       "dist_exhausted": p["dist"]["exhausted"], "set_invocation_retry": p["retry"]["seq"],
                       "direct_returns_result": p["direct"]["returns_result"],
-                      "direct_par_aggregates": p["direct"]["aggregates"], "default_max_retries": p["default_max"]}}
+                      "direct_par_aggregates": p["direct"]["aggregates"], "default_max_retries": p["default_max"],
+                      "sync_group_own_invocations": p["group"]["own_invocations"],
+                      "sync_group_shape": p["group"]["why"]}}
     return emit(p), info
 
 
